@@ -23,7 +23,7 @@ globals().update(
         pid="C11",
         props=["JaqalProofs/Props/C11.lean"],
         targets=["JaqalProofs.Props.C11"],
-        diffs=[("harness.agents.heap_history", 1500, 15000)],
+        diffs=[("harness.agents.heap_history", 1500, 8000)],
         tables=tables,
         trusted=[
             STD_TRUST,
